@@ -219,6 +219,20 @@ func c17Families(run *ev.Run) []*c17File {
 		f.shape = fmt.Sprintf("pkg=%q|form=%s|services=%d|dep=%v|xfile=%v", f.Package, f.GoPkgForm, nsvc, f.Deprecated, f.TypesIn >= 0)
 		files = append(files, f)
 	}
+	// one more file in which every keyword / predeclared identifier is the name
+	// of a method (all four kinds) - whatever the random draw above covered
+	kf := &c17File{Index: n, ProtoName: fmt.Sprintf("f%d/svc.proto", n), Package: "kw.v1", GoPkgForm: "option", TypesIn: -1,
+		GoPath: fmt.Sprintf("verif.local/gen/f%d", n), GoPkgName: fmt.Sprintf("f%d", n)}
+	for si := 0; si*6 < len(goKeywordNames); si++ {
+		sv := c17Service{Name: fmt.Sprintf("Keywords%d", si)}
+		for mi := si * 6; mi < si*6+6 && mi < len(goKeywordNames); mi++ {
+			k := mi % 4
+			sv.Methods = append(sv.Methods, c17Method{Name: goKeywordNames[mi], ClientStream: k == 1 || k == 3, ServerStream: k == 2 || k == 3})
+		}
+		kf.Services = append(kf.Services, sv)
+	}
+	kf.shape = fmt.Sprintf("pkg=%q|form=option|services=%d|all-keywords", kf.Package, len(kf.Services))
+	files = append(files, kf)
 	return files
 }
 
